@@ -45,46 +45,54 @@ Proof.
   - apply N.mod_small. lia.
 Qed.
 
-(* sign bit of the wrapped difference = "difference negative", provided it does not overflow *)
+Lemma sext1_lt w x : 1 <= w -> x < 2 ^ w -> sext1 w x < 2 ^ (w + 1).
+Proof.
+  intros Hw Hx. unfold sext1. rewrite N.add_1_r, N.pow_succ_r'. destruct (N.testbit x (w - 1)); lia.
+Qed.
+
+(* sign bit of the difference taken one bit wider = "difference negative", for ALL operands *)
 Lemma slt_correct w a b :
   1 <= w -> a < 2 ^ w -> b < 2 ^ w ->
-  (- 2 ^ Z.of_N (w - 1) <= to_signed w a - to_signed w b < 2 ^ Z.of_N (w - 1))%Z ->
   slt w a b = (to_signed w a <? to_signed w b)%Z.
 Proof.
-  intros Hw Ha Hb Hov. unfold slt. rewrite sub_w_small by assumption.
+  intros Hw Ha Hb. unfold slt.
+  pose proof (sext1_lt w a Hw Ha) as Hsa. pose proof (sext1_lt w b Hw Hb) as Hsb.
+  rewrite sub_w_small by assumption.
   pose proof (pow2_split w Hw) as Hs.
+  assert (Hs1 : 2 ^ (w + 1) = 2 * 2 ^ w) by (rewrite N.add_1_r, N.pow_succ_r'; reflexivity).
   assert (HZ : (2 ^ Z.of_N w = 2 * 2 ^ Z.of_N (w - 1))%Z).
   { rewrite <- Z.pow_succ_r by lia. f_equal. lia. }
   assert (HP : Z.of_N (2 ^ (w - 1)) = (2 ^ Z.of_N (w - 1))%Z) by (rewrite N2Z.inj_pow; reflexivity).
-  unfold to_signed in *.
+  assert (Ht : forall y, y < 2 ^ (w + 1) -> N.testbit y w = (2 ^ w <=? y)).
+  { intros y Hy. pose proof (testbit_top (w + 1) y) as H. replace (w + 1 - 1) with w in H by lia.
+    apply H; [lia|exact Hy]. }
+  rewrite Ht by (destruct (N.leb_spec (sext1 w b) (sext1 w a)); lia).
+  unfold to_signed, sext1 in *.
   rewrite (testbit_top w a Hw Ha), (testbit_top w b Hw Hb) in *.
-  rewrite testbit_top by (try assumption; destruct (N.leb_spec b a); lia).
   set (P := 2 ^ (w - 1)) in *. set (PZ := (2 ^ Z.of_N (w - 1))%Z) in *.
-  destruct (N.leb_spec b a), (N.leb_spec P a), (N.leb_spec P b);
+  set (M := 2 ^ w) in *.
+  destruct (N.leb_spec P a), (N.leb_spec P b); cbv iota in *;
+    match goal with |- (_ <=? (if ?x <=? ?y then _ else _)) = _ => destruct (N.leb_spec x y) end; cbv iota;
     match goal with |- (?x <=? ?y) = (?u <? ?v)%Z =>
       destruct (N.leb_spec x y), (Z.ltb_spec u v) end; try reflexivity; exfalso; lia.
 Qed.
 
+(* min<SInt> / max<SInt> are the signed minimum / maximum for ALL operands *)
 Theorem smin_correct w a b :
   1 <= w -> a < 2 ^ w -> b < 2 ^ w ->
-  (- 2 ^ Z.of_N (w - 1) <= to_signed w a - to_signed w b < 2 ^ Z.of_N (w - 1))%Z ->
-  (- 2 ^ Z.of_N (w - 1) <= to_signed w b - to_signed w a < 2 ^ Z.of_N (w - 1))%Z ->
   to_signed w (smin w a b) = Z.min (to_signed w a) (to_signed w b) /\
   to_signed w (smax w a b) = Z.max (to_signed w a) (to_signed w b).
 Proof.
-  intros Hw Ha Hb H1 H2. unfold smin, smax, sgt.
-  change (N.testbit (sub_w w b a) (w - 1)) with (slt w b a).
+  intros Hw Ha Hb. unfold smin, smax, sgt.
   rewrite !slt_correct by assumption.
   destruct (Z.ltb_spec (to_signed w b) (to_signed w a)), (Z.ltb_spec (to_signed w a) (to_signed w b)); lia.
 Qed.
 
-(* without the no-overflow side condition the SInt comparison (and so min/max) is wrong:
-   4 bits, a = 3, b = -7: min gives 3 *)
-Theorem smin_refuted :
-  exists w a b, a < 2 ^ w /\ b < 2 ^ w /\
-    to_signed w (smin w a b) <> Z.min (to_signed w a) (to_signed w b) /\
-    to_signed w (smax w a b) <> Z.max (to_signed w a) (to_signed w b).
-Proof. exists 4, 3, 9. vm_compute. repeat split; discriminate. Qed.
+(* regression: operands whose difference does not fit the operand width
+   (4 bits: min(3, -7) used to be 3) *)
+Example smin_overflow_examples :
+  smin 4 3 9 = 9 /\ smax 4 3 9 = 3 /\ smin 4 9 3 = 9 /\ smax 4 8 7 = 7 /\ smin 1 1 0 = 1.
+Proof. vm_compute. repeat split; reflexivity. Qed.
 
 (* ------------------------------------------------------------------ longDivision *)
 Lemma ldiv_indices_S k : ldiv_indices (S k) = N.of_nat (S k) :: ldiv_indices k.
